@@ -135,6 +135,96 @@ func init() {
 		})
 }
 
+type c12Hist struct {
+	Steps []string `json:"steps"` // bad-ref | bad-prop | bad-start | destroy | good
+}
+
+func init() {
+	definePart("C12", "c12/handle-histories", "qt", "all histories of <= 4 steps over {Refresh failing on a dangling reference / on a bad property / in an appender's Start, Destroy, good Refresh+Destroy} before the final valid Refresh; then a raw write through the handle obtained at the very beginning",
+		func(tier string, yield func(c12Hist)) {
+			alpha := []string{"bad-ref", "bad-prop", "bad-start", "destroy", "good"}
+			var rec func(cur []string)
+			rec = func(cur []string) {
+				yield(c12Hist{append([]string(nil), cur...)})
+				if len(cur) == 4 {
+					return
+				}
+				for _, a := range alpha {
+					rec(append(cur, a))
+				}
+			}
+			rec(nil)
+		},
+		func(c c12Hist) (string, []Violation, int) {
+			confReset()
+			key := strings.Join(c.Steps, ",")
+			var v []Violation
+			fail := func(clause, d string) { v = append(v, Violation{Clause: clause, Key: key, Detail: d}) }
+			h := log.GetLogger("c12named")
+			good := func() map[string]string {
+				return map[string]string{"appender.w0.type": "Rec", "appender.w1.type": "Rec", "logger.c12named.type": "Logger", "logger.c12named.tags": "_vfx_*",
+					"logger.c12named.appenderRef[0].ref": "w0", "logger.c12named.appenderRef[1].ref": "w1", "logger.c12named.appenderRef[1].level": "ERROR"}
+			}
+			for i, st := range c.Steps {
+				conf := good()
+				switch st {
+				case "bad-ref":
+					conf["logger.c12named.appenderRef[1].ref"] = "missing"
+				case "bad-prop":
+					conf["enableCaller"] = "maybe"
+				case "bad-start":
+					conf["appender.f.type"] = "File"
+					conf["appender.f.fileDir"] = "/nonexistent-verif-dir/x"
+					conf["appender.f.fileName"] = "f.log"
+				case "destroy":
+					if pn := safeCall(log.Destroy); pn != nil {
+						fail("destroy-panicked", fmt.Sprintf("step %d: %v", i, pn))
+					}
+					continue
+				}
+				err, pn := safeRefresh(conf)
+				if pn != nil {
+					fail("refresh-panicked", fmt.Sprintf("step %d %s: %v", i, st, pn))
+				}
+				if st == "good" && err == nil {
+					safeCall(log.Destroy)
+				}
+			}
+			// the final, valid configuration
+			safeCall(log.Destroy)
+			if h2, pn := func() (h2 *log.LoggerWrapper, pn any) {
+				defer func() { pn = recover() }()
+				return log.GetLogger("c12named"), nil
+			}(); pn != nil || h2 != h {
+				fail("handle-not-identical", fmt.Sprintf("after the history GetLogger(\"c12named\") returned %p (panic %v), the handle obtained first is %p", h2, pn, h))
+			}
+			if err, pn := safeRefresh(good()); err != nil || pn != nil {
+				fail("valid-config-rejected", fmt.Sprintf("final Refresh after Destroy: err=%v panic=%v", err, pn))
+				return "rejected", v, len(c.Steps) + 1
+			}
+			recMu.Lock()
+			for k := range recStore {
+				delete(recStore, k)
+			}
+			recMu.Unlock()
+			consoleBuf.Reset()
+			n, werr := h.Write([]byte("payload-after-history\n"))
+			if n != len("payload-after-history\n") || werr != nil {
+				fail("write-result", fmt.Sprintf("(%d,%v)", n, werr))
+			}
+			safeCall(log.Destroy)
+			for _, a := range []string{"w0", "w1"} {
+				recMu.Lock()
+				items := recStore[a]
+				recMu.Unlock()
+				if len(items) != 1 || items[0].ID != "payload-after-history\n" {
+					fail("raw-write-not-delivered-after-history", fmt.Sprintf("appender %s received %d items (console got %q)", a, len(items), consoleBuf.String()))
+				}
+			}
+			return fmt.Sprint(len(v)), v, len(c.Steps) + 2
+		})
+}
+
 func summarize(ss []string) string {
 	var out []string
 	for _, s := range ss {
